@@ -182,9 +182,30 @@ fn replay_stab(doc: &Value, t: &mut Tally) {
         for borrow_policy in 0..2 {
             let calls: RefCell<Vec<usize>> = RefCell::new(Vec::new());
             let state_of = |s: &str| -> usize { strings.iter().position(|x| *x == s).map(|p| p + 1).unwrap_or(0) };
+            // "for any rule function": a rule function may itself be built on the library (a rule set layered on another
+            // stabilized rule set).  Rotating over the six runs, f stays the same FUNCTION of its argument but is
+            // implemented (1) on top of a nested stabilize of its own argument under the identity rule, or (2) after a
+            // nested stabilize that needs three applications on a scratch string plus a Nickname enforcement.
+            let nesting = (asg + borrow_policy) % 3;
             let closure = hr(|arg| {
                 let i = state_of(arg);
                 calls.borrow_mut().push(i);
+                if nesting == 1 {
+                    match stabilize(arg, hr(|x| Ok(Cow::Borrowed(x)))) {
+                        Ok(ref same) if same.as_ref() == arg => {}
+                        other => panic!("nested stabilize under the identity rule returned {:?}", other),
+                    }
+                } else if nesting == 2 {
+                    let inner = hr(|x| Ok(match x.strip_suffix('!') {
+                        Some(y) => Cow::Borrowed(y),
+                        None => Cow::Borrowed(x),
+                    }));
+                    match stabilize("x!!", inner) {
+                        Ok(ref r) if r.as_ref() == "x" => {}
+                        other => panic!("nested stabilize of a two-step rule returned {:?}", other),
+                    }
+                    let _ = <precis_profiles::Nickname as precis_core::profile::PrecisFastInvocation>::enforce("a \u{3000} b");
+                }
                 if i == 0 || i > n {
                     return Err(Error::Unexpected(UnexpectedError::ProfileRuleNotApplicable));
                 }
